@@ -6,7 +6,7 @@ package main
 // to BinaryExpr / SelectorExpr) the generator lists
 //   - every call that prints an operand:  p.expr1(x.F, CTX, ..) | p.expr0(x.F, ..) | p.expr(x.F) |
 //     p.possibleSelectorExpr(x.F, CTX, ..) | p.exprList(.., x.F, ..)   as (kind, field, context text)
-//   - every condition that mentions prec1 (the parenthesisation decisions) as (kind, condition text)
+//   - every if-condition or assigned expression that mentions prec1 (the parenthesisation decisions) as (kind, text)
 // plus the constants token.LowestPrec / UnaryPrec / HighestPrec and the mayCombine table of printer.go.
 // Model/Expr.v is written against exactly these contexts; Proofs/ExprGen.v compares the regenerated lists with the
 // reviewed ones by computation.  Nothing is guessed: a call whose operand is not of the form x.F / x.F[i] is reported
@@ -63,6 +63,15 @@ func genPrinterExpr(e *Env) error {
 					src := normSrc(p.Src(v.Cond))
 					if strings.Contains(src, "prec1") {
 						conds = append(conds, pxEntry{kind, "", src})
+					}
+				case *ast.AssignStmt:
+					for _, r := range v.Rhs {
+						if _, isCall := r.(*ast.CallExpr); isCall {
+							continue
+						}
+						if src := normSrc(p.Src(r)); strings.Contains(src, "prec1") {
+							conds = append(conds, pxEntry{kind, "", src})
+						}
 					}
 				case *ast.CallExpr:
 					se, ok := v.Fun.(*ast.SelectorExpr)
